@@ -1147,8 +1147,8 @@ func (this *rolzCodec2) Forward(src, dst []byte) (uint, uint, error) {
 		mm := 8
 		re.setContext(_ROLZ_LITERAL_CTX, 0)
 
-		if startChunk >= srcEnd {
-			mm = srcEnd - startChunk
+		if sizeChunk < mm {
+			mm = sizeChunk
 		}
 
 		for j := 0; j < mm; j++ {
@@ -1266,7 +1266,9 @@ func (this *rolzCodec2) Inverse(src, dst []byte) (uint, uint, error) {
 		clear(this.matches)
 		endChunk := startChunk + sizeChunk
 
-		if endChunk > dstEnd {
+		// Mirror the encoder: its chunks cover all bytes but the last 4, which
+		// are emitted as literals after (and decoded with) the last chunk
+		if endChunk >= dstEnd-4 {
 			endChunk = dstEnd
 			sizeChunk = endChunk - startChunk
 		}
@@ -1284,8 +1286,8 @@ func (this *rolzCodec2) Inverse(src, dst []byte) (uint, uint, error) {
 
 		rd.setContext(_ROLZ_LITERAL_CTX, 0)
 
-		if startChunk >= dstEnd {
-			mm = dstEnd - startChunk
+		if endChunk == dstEnd && sizeChunk-4 < mm {
+			mm = max(sizeChunk-4, 0)
 		}
 
 		for j := 0; j < mm; j++ {
